@@ -115,6 +115,21 @@ class Ref:
             self.write("[%d.%d]" % (env.loops[-1][0], len(env.loops) - 1))
         elif k == "cb":
             self.callbody(env)
+        elif k == "ob":
+            self.write("[nocaller]")  # A3: a def called without content has no caller
+        elif k == "py":
+            # Python function under supports_caller: a frame of its own whose caller is the content
+            self.probe(s[1], "arg")
+            benv = Env(env.caller, env.uri)
+            penv = Env((s[3], benv), env.uri)
+            self.path.append("py")
+            try:
+                self.write("<p>")
+                self.probe(s[2], "pyfn")
+                self.callbody(penv)
+                self.write("</p>")
+            finally:
+                self.path.pop()
         elif k == "try":
             try:
                 self.block(s[1], env)
